@@ -294,6 +294,10 @@ func buildReverseSearchers(
 			// For patterns like (?m)^/.*\.php, prefix is "/" - enables O(1) verification
 			prefixLiterals := extractor.ExtractPrefixes(re)
 			searcher.SetPrefixLiterals(prefixLiterals)
+			// Patterns that are exactly ^prefix.*suffix need no DFA verification
+			if prefix, suffix, minGap, ok := multilineLiteralShape(re); ok {
+				searcher.SetLiteralShape(prefix, suffix, minGap)
+			}
 			result.multilineReverseSuffixSearcher = searcher
 		}
 	}
